@@ -4,6 +4,7 @@ import (
 	"fmt"
 	"os"
 	"path/filepath"
+	"reflect"
 	"strconv"
 	"strings"
 	"time"
@@ -14,8 +15,11 @@ import (
 
 // C10: command-line grammar of config.FlagSet.Parse.
 //
-//	T <hexname>:<kind>:<hexdefault>,...                    the flag table of c10Cfg in flagList order
-//	E <vec> <class> <detail> <args> <help> <fields>        one Parse(vec) on a fresh struct + FlagSet
+//	T <idx> <hexname>:<kind>:<hexdefault>,...                         flag table idx (0 = c10Cfg, 1.. = the small structs) in flagList order
+//	E <idx> <intsize> <vec> <class> <detail> <args> <help> <fields>   one Parse(vec) on a fresh struct of table idx + FlagSet
+//
+// intsize = strconv.IntSize of the platform the harness was built for (VERIF_C10_MODE=ints: only the integer vectors,
+// used for the GOARCH=386 pass).
 //
 // vec/args/fields are comma separated hex tokens ("-" = empty token, "." = empty list).
 // class: 0 nil, 1 bad flag syntax, 2 not defined, 3 needs an argument, 4 any other error
@@ -45,6 +49,68 @@ type c10Cfg struct {
 	Sub  c10Inner
 }
 
+// small flag sets: a non-ASCII name is the longest in bytes (S1, S3) or ties with "config" (S2)
+type c10S1 struct {
+	Größe int
+	V     bool
+}
+
+type c10S2 struct {
+	Größ string `flag:"größ,x,ties with config in bytes"`
+	Q    bool
+}
+
+type c10S3 struct {
+	A string `flag:"naïveté-ñ,d,the longest name"`
+	B int
+	C bool `flag:"résumé"`
+	W uint
+}
+
+type c10Tab struct {
+	idx   int
+	table string
+	mk    func() any
+	paths []string
+	flags []struct{ name, kind string }
+}
+
+var c10Tabs = []c10Tab{
+	{0, c10Table, func() any { return &c10Cfg{} },
+		[]string{"B", "V", "S", "Name", "N", "U", "D", "F", "K", "Dry", "Log", "Size", "Odd", "Sub.Inner"}, nil},
+	{1, "help:bool:false,config:string:,größe:int:,v:bool:", func() any { return &c10S1{} }, []string{"Größe", "V"},
+		[]struct{ name, kind string }{{"größe", "int"}, {"v", "bool"}}},
+	{2, "help:bool:false,config:string:,größ:string:x,q:bool:", func() any { return &c10S2{} }, []string{"Größ", "Q"},
+		[]struct{ name, kind string }{{"größ", "string"}, {"q", "bool"}}},
+	{3, "help:bool:false,config:string:,naïveté-ñ:string:d,b:int:,résumé:bool:,w:uint:", func() any { return &c10S3{} }, []string{"A", "B", "C", "W"},
+		[]struct{ name, kind string }{{"naïveté-ñ", "string"}, {"b", "int"}, {"résumé", "bool"}, {"w", "uint"}}},
+}
+
+func c10Canon(v reflect.Value, goPath string) string {
+	for _, p := range strings.Split(goPath, ".") {
+		v = v.FieldByName(p)
+	}
+	switch x := v.Interface().(type) {
+	case bool:
+		return strconv.FormatBool(x)
+	case int:
+		return strconv.Itoa(x)
+	case uint:
+		return strconv.FormatUint(uint64(x), 10)
+	case uint64:
+		return strconv.FormatUint(x, 10)
+	case string:
+		return x
+	case float64:
+		return strconv.FormatFloat(x, 'g', -1, 64)
+	case time.Duration:
+		return strconv.FormatInt(int64(x), 10)
+	case []byte:
+		return string(x)
+	}
+	panic("type of " + goPath)
+}
+
 const c10Table = "help:bool:false,config:string:,b:bool:false,v:bool:,s:string:,name:string:def,n:int:42,u:uint64:0,d:duration:1s,f:float64:,k:bytes:,dry-run:bool:false,log.level:string:info,größe:int:7,\xffz:uint64:,inner:string:in"
 
 // two distinct bool flags (b, v), explicit empty values for a bool and a non-bool flag, "-b=false",
@@ -71,14 +137,14 @@ type c10Obs struct {
 	fields []string
 }
 
-func c10Run(vec []string) (o c10Obs) {
+func c10Run(tab *c10Tab, vec []string) (o c10Obs) {
 	defer func() {
 		if r := recover(); r != nil {
 			o = c10Obs{class: 5, detail: fmt.Sprint(r)}
 		}
 	}()
-	var cfg c10Cfg
-	fs, err := config.NewFlagSet(&cfg)
+	cfg := tab.mk()
+	fs, err := config.NewFlagSet(cfg)
 	if err != nil {
 		return c10Obs{class: 4, detail: "NewFlagSet: " + err.Error()}
 	}
@@ -95,11 +161,9 @@ func c10Run(vec []string) (o c10Obs) {
 	}
 	o.args = fs.Args()
 	o.help = fs.ShowUsage()
-	o.fields = []string{
-		strconv.FormatBool(cfg.B), strconv.FormatBool(cfg.V), cfg.S, cfg.Name,
-		strconv.Itoa(cfg.N), strconv.FormatUint(cfg.U, 10), strconv.FormatInt(int64(cfg.D), 10),
-		strconv.FormatFloat(cfg.F, 'g', -1, 64), string(cfg.K),
-		strconv.FormatBool(cfg.Dry), cfg.Log, strconv.Itoa(cfg.Size), strconv.FormatUint(cfg.Odd, 10), cfg.Sub.Inner,
+	val := reflect.ValueOf(cfg).Elem()
+	for _, p := range tab.paths {
+		o.fields = append(o.fields, c10Canon(val, p))
 	}
 	return o
 }
@@ -107,7 +171,8 @@ func c10Run(vec []string) (o c10Obs) {
 var c10Values = map[string][]string{
 	"bool":     {"true", "false", "1", "0", "t", "F", "TRUE", "True", "", "yes", "2", "tRUE"},
 	"string":   {"x", "", "a=b", "-b", "--", "=", "hello world", "\xff\xfe", "-s=1", "---"},
-	"int":      {"7", "-7", "+7", "0x1F", "0b101", "0o17", "017", "9223372036854775807", "-9223372036854775808", "9223372036854775808", "-9223372036854775809", "zz", "", "1_000", "0x", "-", "+", "0", "00", "08", "-0x8000000000000000", "1e3", " 1"},
+	"uint":     {"0", "7", "4294967295", "4294967296", "0x100000000", "18446744073709551615", "18446744073709551616", "-1", "", "zz", "0xFFFFFFFF"},
+	"int":      {"2147483647", "2147483648", "-2147483648", "-2147483649", "4294967297", "0x100000000", "0x7fffffff", "-0x80000000", "7", "-7", "+7", "0x1F", "0b101", "0o17", "017", "9223372036854775807", "-9223372036854775808", "9223372036854775808", "-9223372036854775809", "zz", "", "1_000", "0x", "-", "+", "0", "00", "08", "-0x8000000000000000", "1e3", " 1"},
 	"uint64":   {"0", "7", "18446744073709551615", "18446744073709551616", "-1", "0XFF", "0xffffffffffffffff", "0x10000000000000000", "", "+1", "zz", "0_7", "0B11"},
 	"duration": {"1s", "1h2m3s", "-5m", "0", "100ms", "1.5s", "5", "1d", "9223372036854775807ns", "9223372036854775808ns", "-9223372036854775808ns", "2562047h47m16s854ms775us807ns", "2562048h", "1\xc2\xb5s", "1\xce\xbcs", "+3us", "", "s", "-", "1h-2m", "1 s", "01h", "-0", "+0"},
 	"float64":  {"1.5", "7", "1e3", "zz", "", "NaN", "inf", "0x1p-2", "-0", "1e400", ".5", "1_0"},
@@ -214,26 +279,32 @@ func runC10(e *hk.Env) error {
 	}
 	defer func() { os.Chdir(cwd); os.RemoveAll(tmp) }()
 
-	// the table line, from the harness's own description of the struct
-	var tl []string
-	for _, ent := range strings.Split(c10Table, ",") {
-		p := strings.Split(ent, ":")
-		tl = append(tl, hk.Hxs(p[0])+":"+p[1]+":"+hk.Hxs(p[2]))
+	// the table lines, from the harness's own description of the structs
+	for _, tab := range c10Tabs {
+		var tl []string
+		for _, ent := range strings.Split(tab.table, ",") {
+			p := strings.Split(ent, ":")
+			tl = append(tl, hk.Hxs(p[0])+":"+p[1]+":"+hk.Hxs(p[2]))
+		}
+		e.Case("T", strconv.Itoa(tab.idx), strings.Join(tl, ","))
 	}
-	e.Case("T", strings.Join(tl, ","))
+	c10Tabs[0].flags = c10Flags[:14]
+	intsOnly := os.Getenv("VERIF_C10_MODE") == "ints"
+	e.Stats["int_size"] = strconv.IntSize
 
 	classes := map[string]int{}
 	className := []string{"nil", "bad_syntax", "not_defined", "needs_argument", "other_error", "PANIC"}
 	distinct := map[string]struct{}{}
 	lens := map[int]int{}
 	total := 0
+	cur := &c10Tabs[0]
 	emit := func(vec []string) {
-		o := c10Run(vec)
+		o := c10Run(cur, vec)
 		total++
 		classes[className[o.class]]++
 		lens[len(vec)]++
 		key := joinHex(vec)
-		distinct[key] = struct{}{}
+		distinct[strconv.Itoa(cur.idx)+" "+key] = struct{}{}
 		h := "0"
 		if o.help {
 			h = "1"
@@ -242,10 +313,81 @@ func runC10(e *hk.Env) error {
 		if o.class == 0 {
 			fields = joinHex(o.fields)
 		}
-		e.Case("E", key, strconv.Itoa(o.class), hk.Hxs(o.detail), joinHex(o.args), h, fields)
+		e.Case("E", strconv.Itoa(cur.idx), strconv.Itoa(strconv.IntSize), key, strconv.Itoa(o.class), hk.Hxs(o.detail), joinHex(o.args), h, fields)
 		if total%9973 == 7 {
 			e.Sample("samples", map[string]any{"vector": vec, "class": className[o.class], "detail": o.detail, "args": o.args, "fields": o.fields}, 6)
 		}
+	}
+
+	// small flag sets (and, in ints mode, only these + the integer flags of the big struct): every flag with every
+	// value of its kind in the four spellings, alone and followed by other flags; exhaustive short vectors
+	spellTab := func(i int, name, val string) []string {
+		switch i {
+		case 0:
+			return []string{"-" + name + "=" + val}
+		case 1:
+			return []string{"--" + name + "=" + val}
+		case 2:
+			return []string{"-" + name, val}
+		}
+		return []string{"--" + name, val}
+	}
+	smallSets := func() {
+		t0 := total
+		for ti := range c10Tabs {
+			cur = &c10Tabs[ti]
+			for _, f := range cur.flags {
+				if intsOnly && f.kind != "int" && f.kind != "uint" {
+					continue
+				}
+				if ti == 0 && !intsOnly {
+					continue // the big struct gets its own sweeps below
+				}
+				for _, val := range c10Values[f.kind] {
+					for sp := 0; sp < 4; sp++ {
+						if f.kind == "bool" && sp >= 2 {
+							continue
+						}
+						emit(spellTab(sp, f.name, val))
+						emit(append(spellTab(sp, f.name, val), "rest", "-"+f.name))
+						emit(append([]string{"-" + cur.flags[len(cur.flags)-1].name + "="}, spellTab(sp, f.name, val)...))
+					}
+				}
+				if f.kind == "bool" {
+					emit([]string{"-" + f.name})
+					emit([]string{"--" + f.name, "x"})
+				}
+			}
+			if ti > 0 && !intsOnly {
+				var alpha []string
+				for _, f := range cur.flags {
+					alpha = append(alpha, "-"+f.name, "--"+f.name+"=", "-"+f.name+"=1")
+				}
+				alpha = append(alpha, "x", "--", "-help")
+				var gen func(prefix []string, l int)
+				gen = func(prefix []string, l int) {
+					if l == 0 {
+						emit(prefix)
+						return
+					}
+					for _, t := range alpha {
+						gen(append(prefix[:len(prefix):len(prefix)], t), l-1)
+					}
+				}
+				for l := 1; l <= 3; l++ {
+					gen(nil, l)
+				}
+			}
+		}
+		cur = &c10Tabs[0]
+		e.Stats["small_flagset_vectors"] = total - t0
+	}
+	if intsOnly {
+		smallSets()
+		e.Stats["cases"] = total
+		e.Stats["distinct_nontrivial"] = len(distinct)
+		e.Stats["class_histogram"] = classes
+		return nil
 	}
 
 	// corpus (regression vectors), one vector per line, tokens comma separated hex
@@ -267,6 +409,7 @@ func runC10(e *hk.Env) error {
 		}
 	}
 
+	smallSets()
 	// (a) exhaustive
 	maxLen, maxLenExtra, nRandom := 4, 2, 30000
 	if e.Thorough() {
